@@ -165,7 +165,8 @@ def add_noise(r, spec, enum_level=True, variant_level=True, skip=()):
             if "docs" not in skip and not v.docs and r.random() < 0.2:
                 v.docs = [("///", " noise doc")]
             if r.random() < 0.15:
-                v.extra_attrs.append(r.choice(["#[allow(dead_code)]", "#[cfg(all())]", "#[allow(non_camel_case_types, dead_code)]"]))
+                v.extra_attrs.append(r.choice(["#[allow(dead_code)]", "#[cfg(all())]", "#[allow(non_camel_case_types, dead_code)]",
+                                               "#[doc(hidden)]", "#[doc(alias = \"noise_alias\")]"]))
             if r.random() < 0.3:
                 v.split_attrs = r.choice([0, 1, 2])
                 v.attr_order_seed = r.randint(0, 9)
